@@ -39,6 +39,7 @@
 #include <xercesc/framework/XMLContentModel.hpp>
 #include <xercesc/validators/schema/SchemaAttDef.hpp>
 #include <xercesc/internal/XSerializable.hpp>
+#include <xercesc/util/XercesVerifHooks.hpp>
 
 namespace XERCES_CPP_NAMESPACE {
 
@@ -347,6 +348,7 @@ ComplexTypeInfo::elementAt(const XMLSize_t index) const {
 
 inline XMLContentModel* ComplexTypeInfo::getContentModel(const bool checkUPA)
 {
+    XERCES_VERIF_POINT_IF(!fContentModel && fContentSpec, LazyEnter, this, VerifHooks::SiteSchemaContentModel, 0);
     if (!fContentModel && fContentSpec)
         fContentModel = makeContentModel(checkUPA);
 
